@@ -150,7 +150,7 @@ PROPS = {
     "C15": {
         "slices": ["tree", "C15", "isx"],
         "relevant_diff": lambda part, op: part.startswith("DIFF is") or part.startswith("DIFF eqany") or part.startswith("DIFF parse") or part.startswith("DIFF tree") or part.startswith("DIFF xlookup"),
-        "assumptions": COMMON_ASSUME + ["decorations are ASCII (case, ASCII white space, well-formed parameters); unicode.IsSpace beyond ASCII is not modelled"],
+        "assumptions": COMMON_ASSUME + ["mime.ParseMediaType is hand-modelled for arbitrary byte strings (Model/MediaTypeU.lean: Unicode white space, Unicode lower-casing as far as it can reach ASCII, invalid UTF-8; go1.23.5 / Unicode 15), validated on 9.7 M inputs when written and compared with the real package on every isx / eqanyx op"],
         "trusted_base": ["Is / EqualsAny / lookup hand-modelled over the ParseMediaType model; names and aliases regenerated; tie: is/eqany/parse/res ops over every registered name and alias x decorations"],
     },
     "C07": {
